@@ -250,6 +250,9 @@ func timedCallV4(tau time.Duration, tries int, cancelAt, closeAt *time.Duration,
 				mt = dhcpv4.MessageTypeOffer
 			}
 			rep, _ := dhcpv4.NewReplyFromRequest(req, dhcpv4.WithMessageType(mt))
+			if mt == dhcpv4.MessageTypeAck && (at/time.Millisecond)%2 == 1 {
+				rep.TransactionID[0] ^= 0x55 // a stray datagram: nobody waits for this transaction
+			}
 			conn.inject(at, rep.ToBytes())
 		}
 		ctx, cancel := context.WithCancel(context.Background())
@@ -317,9 +320,9 @@ func timedCallV6(tau time.Duration, tries int, cancelAt, closeAt *time.Duration,
 		variant := (int(tau/time.Millisecond) + 2*tries + len(ds)) % 3
 		opts6 := []nclient6.ClientOpt{nclient6.WithTimeout(tau), nclient6.WithRetry(tries)}
 		if variant == 1 {
-			opts6 = append(opts6, nclient6.WithSummaryLogger())
+			opts6 = append(opts6, nclient6.WithSummaryLogger(), nclient6.WithLogDroppedPackets())
 		} else if variant == 2 {
-			opts6 = append(opts6, nclient6.WithDebugLogger())
+			opts6 = append(opts6, nclient6.WithDebugLogger(), nclient6.WithLogDroppedPackets())
 		}
 		conn.closeErr = closeAt != nil && (*closeAt/time.Millisecond)%2 == 1
 		c, err := nclient6.NewWithConn(conn, labHW, opts6...)
@@ -341,6 +344,9 @@ func timedCallV6(tau time.Duration, tries int, cancelAt, closeAt *time.Duration,
 				mt = dhcpv6.MessageTypeAdvertise
 			}
 			rep := &dhcpv6.Message{MessageType: mt, TransactionID: req.TransactionID}
+			if mt == dhcpv6.MessageTypeReply && (at/time.Millisecond)%2 == 1 {
+				rep.TransactionID[0] ^= 0x55 // a stray datagram: nobody waits for this transaction
+			}
 			conn.inject(at, rep.ToBytes())
 		}
 		ctx, cancel := context.WithCancel(context.Background())
